@@ -104,14 +104,15 @@ def lake_build(targets):
     return p.returncode == 0, p.stdout + p.stderr
 
 
-def axiom_audit(names):
-    """#print axioms for each name; returns {name: [axioms]} (missing name = not proved)"""
-    if not names:
-        return {}
+def axiom_audit(names, mods):
+    """#print axioms for each name; returns ({name: [axioms]}, raw text); a missing name = not proved"""
+    if not names or not mods:
+        return {}, ""
     os.makedirs(os.path.join(ROOT, ".work"), exist_ok=True)
     f = os.path.join(ROOT, ".work", "audit_%d.lean" % os.getpid())
     with open(f, "w") as h:
-        h.write("import Qhttp\n")
+        for m in mods:
+            h.write("import %s\n" % m)
         for n in names:
             h.write("#print axioms %s\n" % n)
     with Lock("lake"):
@@ -132,26 +133,18 @@ def proof_half(prop, tier):
     ok_drv, out_drv = lake_build(["qhttp-driver"])
     if not ok_drv:
         return {"fatal": "the model/driver does not build (framework defect, not a property verdict):\n" + out_drv[-3000:]}
-    results = {}
-    failed_mods = []
+    built, failed_mods = [], []
     for m in mods:
         ok, out = lake_build([m])
-        results[m] = ok
-        if not ok:
+        if ok:
+            built.append(m)
+        else:
             failed_mods.append((m, out[-3000:]))
-    ok_all, out_all = lake_build(["Qhttp"]) if not failed_mods else (False, "")
     names = theorems_of(os.path.join(LEAN, "Qhttp", "Props", prop + ".lean"), "Qhttp." + prop)
     for bm in props.BRIDGES.get(prop, []):
         names += theorems_of(os.path.join(LEAN, *bm.split(".")) + ".lean", bm)
-    audit, txt = ({}, "")
-    if not failed_mods and ok_all:
-        audit, txt = axiom_audit(names)
-    elif names:
-        # audit what still builds: only the property module if it built
-        try:
-            audit, txt = axiom_audit([n for n in names if results.get("Qhttp.Props." + prop) and n.startswith("Qhttp." + prop + ".")])
-        except Exception:
-            audit = {}
+    checkable = [n for n in names if any(n.startswith(m.replace("Qhttp.Props.", "Qhttp.") + ".") or n.startswith(m + ".") for m in built)]
+    audit, txt = axiom_audit(checkable, built)
     discharged, bad = [], []
     for n in names:
         ax = audit.get(n)
@@ -165,16 +158,15 @@ def proof_half(prop, tier):
     info.update({"obligations": names, "discharged": discharged, "undischarged": bad,
                  "forbidden": forb, "axioms": sorted({a for v in audit.values() for a in v}),
                  "failed_modules": failed_mods})
-    if tier == "thorough" and not failed_mods:
+    if tier == "thorough":
         lc = []
-        for m in mods:
+        for m in built:
             with Lock("lake"):
                 p = subprocess.run(["lake", "env", "leanchecker", m], cwd=LEAN, capture_output=True, text=True)
             lc.append((m, p.returncode))
-        info["leanchecker"] = lc
-        for m, rc in lc:
-            if rc != 0:
+            if p.returncode != 0:
                 bad.append((m, "leanchecker rejected the module"))
+        info["leanchecker"] = lc
     return info
 
 
@@ -337,6 +329,7 @@ def main():
     ap.add_argument("--tier", default=os.environ.get("VERIF_TIER", "quick"))
     ap.add_argument("--replay")
     ap.add_argument("--seed", type=int, default=int(os.environ.get("VERIF_SEED", "1")))
+    ap.add_argument("--show", type=int, default=0, help="print the first N problem results (debugging)")
     ap.add_argument("--budget", type=float, default=1.0, help="multiplier of the scenario count")
     a = ap.parse_args()
     prop, tier, seed = a.prop, a.tier, a.seed
@@ -391,6 +384,15 @@ def main():
 
     res_lines, crashes, raw = run_scenarios(exe, lines)
     results = [r for r in map(parse_res, res_lines) if r]
+    if a.show:
+        shown = 0
+        for r in results:
+            if (not r["eq"] or not r["hi"] or not r["hm"] or r["miss"]) and shown < a.show:
+                shown += 1
+                log("----", r["id"], "eq=%d hm=%d hi=%d miss=%d" % (r["eq"], r["hm"], r["hi"], r["miss"]))
+                log("  scn :", byid.get(r["id"]))
+                log("  model:", r["pm"])
+                log("  impl :", r["pi"])
     known = [k for k in load_known() if k["property"] == prop and k.get("status") == "known"]
 
     broken = []        # framework problems (never a verdict about the property)
